@@ -27,6 +27,10 @@ func (source *SR) NewTransform(dest *SR) (Transformer, error) {
 	}
 
 	return func(x, y float64) (float64, float64, error) {
+		// The closure may be called any number of times: work on a copy so that
+		// the two-step transformation below does not change the source seen by
+		// the next call.
+		source := source
 		point := []float64{x, y}
 		// Workaround for datum shifts towgs84, if either source or destination projection is not wgs84
 		if checkNotWGS(source, dest) || checkNotWGS(dest, source) {
